@@ -300,10 +300,13 @@ class DULServiceProvider(threading.Thread):
         if self.dul_socket is None:
             return False
 
-        # wait for remote connection to close
+        # wait for remote connection to close, without blocking: the ARTIM timer and the kill
+        # flag have to be looked at while the peer keeps its side open
         try:
-            while self.dul_socket.recv(1) != b'':
-                continue
+            if not select.select([self.dul_socket], [], [], 0.05)[0]:
+                return False
+            if self.dul_socket.recv(self.max_pdu_length) != b'':
+                return False  # anything the peer still sends is ignored
         except socket.error:
             return False
 
